@@ -58,6 +58,7 @@ func eventsPaired() bool {
 //	0 transfer (public; address lengths vParam(1), vParam(2))  1 transferX  2 mint  3 burn  4 lock  5 newEpoch
 func VerifC01Op() {
 	op, flen, tlen := vParam(0), vParam(1), vParam(2)
+	vCommittee(vParam(3)) // committee size: the Alphabet threshold formula is exercised at sizes divisible by 3 too
 	deployBalanceWorld()
 	a0, a1, lk, thief := vAcct("a0"), vAcct("a1"), vAcct("lk"), vAcct("thief")
 	x0, x1, y, until := vInt("x0"), vInt("x1"), vInt("y"), vInt("until")
